@@ -105,7 +105,20 @@ func (a *Adv) ensureSession() bool {
 		o = MsgOpt{}
 	}
 	a.env.Note("peer logon seq=%d reset=%v", map[bool]int{true: o.Seq, false: p.OutSeq}[o.Seq != 0], reset)
-	a.send("A", p.LogonBody(a.hb, reset), o)
+	lb := p.LogonBody(a.hb, reset)
+	if a.s.E.Cfg.Extra["EnableNextExpectedMsgSeqNum"] == "Y" && ch.Chance("logon789", 2, 3) {
+		// a counterparty that uses tag 789 as well: the number it expects next, honest, behind or ahead
+		v := a.engS()
+		switch ch.Choose("logon789value", 4) {
+		case 1:
+			v = 1
+		case 2:
+			v += 3
+		}
+		lb = append(lb, wire.FI(789, v))
+		a.env.Stat("probe_adversary_logon_with_tag_789")
+	}
+	a.send("A", lb, o)
 	return p.Connected()
 }
 
